@@ -104,6 +104,8 @@ def random_grid_cfg(rng: np.random.Generator, max_M=16, impl=None, spacing=None,
     nlat = nlat_min + int(rng.choice([0, 0, 1, 2, 3, L]))
   else:
     nlon = max(M, nlon_min - int(rng.integers(0, M + 1)))
+    if M >= 2 and rng.random() < 0.3:
+      nlon = max(M, 2 * (M - 1))     # the top zonal wavenumber sits exactly at the Nyquist frequency
     nlat = max(2, nlat_min - int(rng.integers(0, max(1, L // 2) + 1)))
   nlon = max(nlon, 1)
   nlat = max(nlat, 1)
